@@ -27,7 +27,8 @@ RULE = ("energies 10^U(3,12) GeV x (EM only / hadronic only / mixed fractions) x
         "ArasimIce (index at the vertex differs from the module default); ARZ angles inside the +-4.5e-7 rad on-cone "
         "window; shower times exactly at the ZHS/AVZ cut |shift| = len(trace) +- 2; call forms (list / tuple times, "
         "Python-int, numpy-int, numpy-scalar and 0-d-array scalars, keywords, omitted defaults, tuple vertex, the "
-        "aliases AskaryanSignal and ARVZAskaryanSignal), caller-owned arrays, re-gridding with with_times / "
+        "aliases AskaryanSignal and ARVZAskaryanSignal), caller-owned arrays (also modified in place before the first "
+        "read of a lazily evaluated pulse), re-gridding with with_times / "
         "times assignment, and evaluation order with importlib.reload in between; a case is non-trivial when the energy is non-zero and the pulse is not cut to all-zero; distinct = "
         "distinct (model, parameters, grid) tuples")
 LEVEL_TEXT = ("theorems C07_* proved over R for the model text (1/R exactly, evenness in the angle, joint shift, "
@@ -100,7 +101,16 @@ LEVEL_NOTE = ("floating-point rounding is not modelled (tolerance run; ARZ fract
               "every stream that evaluates ARZ passes through the predictor. ZHS with an on-grid shower time whose "
               "nominal shift is within one of the cut is K24 under a joint shift as well (the cut decision int() of "
               "a float quotient flips). The fingerprints ignore logger calls, message texts and the names of local "
-              "variables (alpha-renamed), so only structural changes fail the translator closed. Index off-by-ones: a "
+              "variables (alpha-renamed), so only structural changes fail the translator closed. Caller-owned time array modified in place between construction and first read (pulses are lazy): "
+              "relation 'lazy_grid' (grid += delta / grid *= 2 / grid[:] = ... on the float64 array given to the "
+              "constructor, all three models and both ARZ aliases, dt not a multiple of 10 ps): the pulse keeps the "
+              "times and values of the grid it was built with and the joint-shift pair built that way agrees. K13's region is expressed in the physically relevant quantity (cone_resolution): ARZ sweeps are "
+              "claimed for q = sqrt(n^2-1)*step*max_length(E_max)/(c*dt) >= 4.5 - a scan of the unchanged code over "
+              "index 1.05..2.0 (4400 sweeps) found the ordering violated only for q <= 3.30, for small indices already "
+              "at dt = 0.1 ns because the pulse one step off the cone is sqrt(n^2-1) times narrower; below 4.5 a failing "
+              "sweep is K13. AVZ fails only for dt >= 1 ns at every index 1.05..2.0 (claimed for dt <= 0.5 ns), ZHS "
+              "never. 'linear_low': on the cone the field per GeV is the same constant from 1e-6 GeV up, across the "
+              "critical energies of the profiles (ARZ EM and hadronic, ZHS, AVZ EM), and never all-zero for E > 0. Index off-by-ones: a "
               "misplacement of the convolution (n_shift += n_Q_negative +- 1, decimation offset, shifted z or t_RAC "
               "grid, wrong LQ_tot) is caught on the implementation alone by the independent-quadrature oracle "
               "'position'; n_shift + 1 *before* t_RAC_vals is computed and n_extra + 1 move / extend the +-10 ns "
@@ -908,6 +918,62 @@ def forms_check(kind, c):
     return None
 
 
+def lazy_grid_check(kind, c):
+    """pulses evaluate lazily: the caller's float64 time array is modified IN PLACE between constructing a pulse and
+    first reading it (`grid += delta` to build the jointly shifted configuration, `grid *= 2`, `grid[:] = ...`).
+    The first pulse must still be the pulse on the grid it was constructed with (times and values of a pulse built
+    from a private copy), and the joint-shift relation between the two pulses must hold"""
+    from pyrex import askaryan as A
+    cc = dict(c)
+    cc["dt"] = c.get("lazy_dt", 1.25e-10)       # not a multiple of 10 ps: no int() flip in ARZ's dt/1e-11
+    t0, psi, Ri = t0_of(cc), psi_of(cc), cc["R"]
+    ens = (cc["E"] * cc["em"], cc["E"] * cc["had"])
+    if not arz_fits(kind, psi, n_of(cc), cc["dt"], cc["N"], ens):
+        raise SkipCase("too large")
+    classes = [_classes()[kind]] + ([A.AskaryanSignal, A.ARVZAskaryanSignal] if kind == "arz" else [])
+    delta = cc.get("s", 12345 * cc["dt"])
+    with warnings.catch_warnings(), mem_cap():
+        warnings.simplefilter("ignore")
+        for cls in classes:
+            for how in ("+=", "*=", "[:]="):
+                g = grid(cc).astype(np.float64)
+                keep = g.copy()
+                p = mkp(cc["E"], cc["em"], cc["had"], cc["z"])
+                p1 = cls(g, p, psi, Ri, ice_of(cc), t0)
+                if how == "+=":
+                    g += delta
+                    p2 = cls(g, p, psi, Ri, ice_of(cc), t0 + delta)
+                elif how == "*=":
+                    g *= 2
+                    p2 = None
+                else:
+                    g[:] = keep[::-1] * 3 + 1e-6
+                    p2 = None
+                t1 = np.array(p1.times, dtype=float)
+                v1 = np.array(p1.values, dtype=float)
+                fresh = np.array(cls(keep.copy(), mkp(cc["E"], cc["em"], cc["had"], cc["z"]), psi, Ri, ice_of(cc), t0).values,
+                                 dtype=float)
+                scl = float(np.max(np.abs(fresh))) if len(fresh) else 0.0
+                what = None
+                if t1.shape != keep.shape or not np.array_equal(t1, keep):
+                    what = "the pulse's times follow the caller's array after `grid %s ...`" % how
+                elif v1.shape != fresh.shape or not np.all(np.abs(v1 - fresh) <= 1e-12 * scl + 1e-300):
+                    what = "the pulse's values follow the caller's array after `grid %s ...`" % how
+                elif p2 is not None:
+                    v2 = np.array(p2.values, dtype=float)
+                    sc = max(scl, ref_peak(kind, cc))
+                    if v2.shape != v1.shape or not np.all(np.abs(v2 - v1) <= TOL[kind] * sc + 1e-300):
+                        what = "joint shift built with `grid += delta` between the two constructions fails"
+                if what:
+                    i = int(np.argmax(np.abs(v1 - fresh))) if v1.shape == fresh.shape else -1
+                    return {"observed": {"class": cls.__name__, "in-place operation": how,
+                                         "times[0] now / given": [float(t1[0]) if len(t1) else None, float(keep[0])],
+                                         "values": [float(fresh[i]), float(v1[i])] if i >= 0 else [len(fresh), len(v1)]},
+                            "expected": "a pulse keeps the grid it was constructed with",
+                            "what": "%s: %s" % (kind, what)}
+    return None
+
+
 def _with_vertex(p, kind_):
     q = mkp(p.energy, p.interaction.em_frac, p.interaction.had_frac, p.vertex[2])
     q.vertex = kind_(float(x) for x in p.vertex)
@@ -1060,6 +1126,8 @@ def _rel_check(kind, c, relation):
         return forms_check(kind, c)
     if relation == "order":
         return order_check(kind, c)
+    if relation == "lazy_grid":
+        return lazy_grid_check(kind, c)
     if relation == "cone_limit":
         return cone_limit_check(kind, c)
     if relation == "centre":
@@ -1170,6 +1238,29 @@ def _rel_check(kind, c, relation):
                     "expected": "values(lam*E) == lam*values(E) on the cone (EM shower)",
                     "what": "%s: on-cone EM pulse is not proportional to the shower energy" % kind}
         return None
+    if relation == "linear_low":
+        # on the cone the field per GeV is one constant from 1e-6 GeV to 1e12 GeV, in particular across the critical
+        # energies 0.0786 / 0.17 GeV of the shower profiles (the on-cone branch of ARZ never looks at the profile),
+        # and the trace of a shower with positive energy is not all zeros
+        psi = c["sgn"] * thc_of(c)
+        showers = [("em", 1.0, 0.0)] + ([("had", 0.0, 1.0)] if kind != "avz" else [])
+        for name, em, had in showers:
+            ref_E = 1e6
+            ref = values(kind, c, psi=psi, em=em, had=had, E=ref_E)
+            s_ = float(np.max(np.abs(ref))) if len(ref) else 0.0
+            for e_low in c.get("e_low", (1e-3, 7e-2)):
+                v = values(kind, c, psi=psi, em=em, had=had, E=e_low)
+                exp_ = ref * (e_low / ref_E)
+                if v.shape != exp_.shape or (s_ > 0 and not np.any(v)) or \
+                        not np.all(np.abs(v - exp_) <= 1e-9 * s_ * (e_low / ref_E) + 1e-300):
+                    i = int(np.argmax(np.abs(v - exp_))) if v.shape == exp_.shape else -1
+                    return {"observed": {"shower": name, "energy": e_low,
+                                         "value / GeV": [float(ref[i]) / ref_E, float(v[i]) / e_low] if i >= 0 else None,
+                                         "all zero": bool(not np.any(v))},
+                            "expected": "values(E)/E on the cone independent of E (down to 1e-6 GeV)",
+                            "what": "%s: on-cone %s pulse is not proportional to the shower energy below %g GeV"
+                                    % (kind, name, e_low)}
+        return None
     if relation == "cone_max":
         step = c.get("step", 0.5)
         thc = thc_of(c)
@@ -1187,12 +1278,45 @@ def _rel_check(kind, c, relation):
                     a = float(np.max(np.abs(v)))
                 amps[(side, j)] = a
                 if prev is not None and not a < prev * (1 + 1e-9) and prev > 0:
-                    return {"observed": {"side": side, "deg_off_cone": [step * (j - 1), step * j], "peak": [prev, a]},
+                    return {"observed": {"side": side, "deg_off_cone": [step * (j - 1), step * j], "peak": [prev, a],
+                                         "resolution q": cone_resolution(kind, c)},
                             "expected": "peak falls with angular distance from the cone",
-                            "what": "%s: pulse amplitude does not fall with angular distance from the Cherenkov cone" % kind}
+                            "what": "%s: pulse amplitude does not fall with angular distance from the Cherenkov cone" % kind,
+                            "key": "K13" if in_k13(kind, c) else None}
                 prev = a
         return None
     raise ValueError("unknown relation " + relation)
+
+
+ARZ_RESOLVED = 4.5
+
+
+def cone_resolution(kind, c):
+    """ARZ: how well a sweep in steps of `step` degrees is resolved by the grid: the time width of the pulse one
+    step off the cone, sqrt(n^2-1) * step * max_length(E_max) / c (shower length times the time-compression factor
+    (1 - n cos theta)/c ~ sqrt(n^2-1) * dtheta / c), in units of dt.  A scan of the unchanged code over index
+    1.05..2.0, dt 0.025..0.2 ns, steps 0.5..2 degrees, E 1e3..1e12 GeV (4400 sweeps) found the sampled peak ordering
+    violated only for q <= 3.30 (the on-cone pulse -diff(RAC)/dt is under-sampled while the off-cone pulse is
+    narrow enough to be nearly as high); the ordering is claimed for q >= 4.5.  AVZ: the scan over the same indices
+    fails only for dt >= 1 ns at every index; ZHS never."""
+    if kind != "arz":
+        return None
+    from pyrex.askaryan import ARZAskaryanSignal as Z
+    n = n_of(c)
+    en = max(c["E"] * c["em"], c["E"] * c["had"])
+    if not (n > 1 and en > 0.0786):
+        return 0.0
+    return float(math.sqrt(n * n - 1) * math.radians(c.get("step", 0.5)) * Z.max_length(en) / 299792458.0 / c["dt"])
+
+
+def in_k13(kind, c):
+    """K13: the sampled amplitude ordering is not claimed where the grid does not resolve it: ARZ with resolution
+    q < 4.5 (see `cone_resolution`), AVZ with dt > 0.5 ns (band limit below 1 GHz)"""
+    if kind == "arz":
+        return cone_resolution(kind, c) < ARZ_RESOLVED
+    if kind == "avz":
+        return c["dt"] > 5e-10 * (1 + 1e-9)
+    return False
 
 
 def move_in_range(kind, c):
@@ -1273,7 +1397,7 @@ def position_check(kind, c):
 
 
 RELATIONS = ("finite", "inv_distance", "even", "joint_shift", "move", "zero_energy", "linear_E", "cone_max", "position",
-             "forms", "centre", "far_zero", "raises", "order", "cone_limit")
+             "forms", "centre", "far_zero", "raises", "order", "cone_limit", "lazy_grid", "linear_low")
 
 
 def report(run, kind, c, relation, res):
@@ -1310,6 +1434,9 @@ def search(run, deep):
             rels = ["finite", "inv_distance", "even", "joint_shift", "move", "zero_energy"]
             if i % 2 == 0:
                 rels.append("linear_E")
+            if i % 3 == 0:
+                c["e_low"] = (10 ** r.uniform(-6, -1.2), r.choice([7e-2, 0.0786 * (1 - 1e-9), 0.1, 0.17, 1.0, 10 ** r.uniform(-1.1, 2)]))
+                rels.append("linear_low")
             for rel in rels:
                 if rel == "move" and not move_in_range(kind, c):
                     run.count("move_across_cutoff")
@@ -1332,7 +1459,8 @@ def search(run, deep):
             c["dpsi"] = 0.0
             c["step"] = r.choice([0.5, 0.7, 1.0, 2.0])
             if kind == "arz":
-                c["dt"] = r.choice([2.5e-11, 5e-11, 1e-10])   # coarser grids under-sample the on-cone pulse: K13
+                c["dt"] = r.choice([2.5e-11, 5e-11, 1e-10, 2e-10])   # K13 is decided by cone_resolution(), not by dt
+                run.count("sweep_arz_%s" % ("resolved" if not in_k13(kind, c) else "K13_region"))
             if kind == "avz":
                 # band limit >= 1 GHz: below 500 MHz the AVZ width (2.7 deg * 500 MHz / f) is so large that the
                 # sin(theta)/sin(theta_c) prefactor moves the maximum by more than the sweep step (K13)
@@ -1350,7 +1478,9 @@ def search(run, deep):
             c["k"] = r.randint(5, c["N"] - 6)
             run.case(("forms",) + desc(kind, c))
             run.count("search_forms_" + kind)
-            for rel in ("forms", "centre", "far_zero") + (("raises", "order") if i % 4 == 0 else ()):
+            c["s"] = r.choice([12345 * 1.25e-10, 1e-6, -3.3e-7, r.uniform(-1e-6, 1e-6)])
+            c["lazy_dt"] = r.choice([1.25e-10, 1.25e-10, 3.75e-10, r.uniform(0.6e-10, 1.9e-9)])
+            for rel in ("forms", "lazy_grid", "centre", "far_zero") + (("raises", "order") if i % 4 == 0 else ()):
                 res = rel_check(run, kind, c, rel)
                 if res is not None:
                     report(run, kind, c, rel, res)
@@ -1365,9 +1495,12 @@ def search(run, deep):
                 c["dpsi"] = r.choice([0.0, r.choice([-1, 1]) * 10 ** r.uniform(-3, -1)])
                 if min(c["E"] * c["em"] or 1e9, c["E"] * c["had"] or 1e9) < 3.0:
                     continue
+                # dt not a multiple of 10 ps: dt_divider_RAC = int(dt/1e-11)+1 of the differenced, jointly shifted
+                # grid would flip by one there and change the sub-sample grid (2e-3 of the peak)
+                c["dt"] = r.choice([1.25e-10, 3.75e-10, 6.25e-10, r.uniform(0.6e-10, 1.9e-9)])
                 if i % 3 == 0 and c["dpsi"] != 0.0:
                     # t0 = times[0] + 10 ns -/+ : the move crosses the sign change of (t_start + 10 ns)
-                    c["dt"] = r.choice([2.5e-10, 5e-10, 1e-9])
+                    c["dt"] = r.choice([1.25e-10, 3.75e-10, 6.25e-10])
                     c["N"] = 64
                     c["m"] = r.choice([1, 2, 3])
                     c["k"] = int(round(1e-8 / c["dt"])) - r.randint(0, c["m"])
@@ -1424,7 +1557,7 @@ def search(run, deep):
                      "off": r.choice([-1, 1]) * r.uniform(0.05, 0.35)}[am]
         c["E"] = 10 ** r.uniform(3, 6)
         c["had"] = 10 ** r.uniform(-2.5, 3.2) / c["E"]
-        c["em"] = {"had": 0.0, "mix": 1 - c["had"], "weak_em": 10 ** r.uniform(-2.5, 3) / c["E"]}[
+        c["em"] = {"had": 0.0, "mix": max(0.0, 1 - c["had"]), "weak_em": 10 ** r.uniform(-2.5, 3) / c["E"]}[
             r.choice(["had", "mix", "weak_em"])]
         run.case(("weak",) + desc("zhs", c))
         run.count("search_weak_%s" % am)
